@@ -1,5 +1,7 @@
 pub mod hist;
 pub mod c01;
+pub mod c02;
+pub mod c02b;
 pub mod c03;
 pub mod c04;
 pub mod c04a;
@@ -17,6 +19,7 @@ use serde_json::Value;
 pub fn run(id: &str, tier: Tier, seed: u64, replay: Option<Value>) -> i32 {
     match id {
         "C01" => hist::run(&c01::spec(), tier, seed, replay),
+        "C02" => hist::run(&c02::spec(), tier, seed, replay),
         "C03" => hist::run(&c03::spec(), tier, seed, replay),
         "C04" => hist::run(&c04::spec(), tier, seed, replay),
         "C07" => hist::run(&c07::spec(), tier, seed, replay),
